@@ -244,7 +244,7 @@ def _stable_edge_facts(P, fn, _cache={}):
     return facts
 
 
-def reachable_sensitive(P, fn, site_bb, removed_edges=(), removed_blocks=(), start=0):
+def reachable_sensitive(P, fn, site_bb, removed_edges=(), removed_blocks=(), start=0, env0=()):
     facts = _stable_edge_facts(P, fn)
     if not facts:
         return reachable_without(fn, site_bb, removed_edges, removed_blocks, start)
@@ -252,7 +252,7 @@ def reachable_sensitive(P, fn, site_bb, removed_edges=(), removed_blocks=(), sta
     removed_blocks = set(removed_blocks)
     if start in removed_blocks:
         return False
-    init = (start, frozenset())
+    init = (start, frozenset(env0))
     seen = {init}
     st = [init]
     limit = 200000
